@@ -222,6 +222,14 @@ class DocModel:
     def rename(self, uid, name):
         self.by_uid[tuple(uid)].name = name
 
+    def add_table(self, si, sheet_name_, name, hdr_rows, hdr_cols):
+        """A table added later (empty: it carries no labels, it only changes which names are unique)."""
+        ti = sum(1 for t in self.tables if t.sheet == si)
+        t = TableInfo((si, ti), sheet_name_, name, hdr_rows, hdr_cols, {})
+        self.tables.append(t)
+        self.by_uid[t.uid] = t
+        return t
+
     def rename_sheet(self, si, name):
         for t in self.tables:
             if t.sheet == si:
